@@ -49,7 +49,9 @@ def build_fragment(f, cls, tag, exact_dir=None):
     n = f["n"]
     pts = [LATTICE[p % 27] for p in f["perm"][:n]]
     coords = np.array(pts, dtype=float) * 1.5 + np.array(f["jitter"][: 3 * n], dtype=float).reshape((n, 3))
-    atoms = [Atom(element=ELS[e % len(ELS)], label=f"{tag}{i}", attrib={"tag": [tag, i]}) for i, e in enumerate(f["els"][:n])]
+    # per-atom formal charges / spins are annotations of their own: they need not add up to the fragment's declared charge / multiplicity
+    fcs = f.get("fcs") or [0]
+    atoms = [Atom(element=ELS[e % len(ELS)], label=f"{tag}{i}", attrib={"tag": [tag, i]}, formal_charge=fcs[i % len(fcs)], formal_spin=(1 if fcs[(i + 1) % len(fcs)] == 2 else 0)) for i, e in enumerate(f["els"][:n])]
     aps = []
     for k, (anchor, d) in enumerate(f["aps"]):
         anchor %= n
@@ -324,6 +326,7 @@ def _frag(max_n, n_aps=(1, 1)):
         "aps": st.lists(st.tuples(st.integers(0, 9), st.lists(st.floats(-1, 1), min_size=3, max_size=3)).map(list), min_size=n_aps[0], max_size=n_aps[1]),
         "charge": st.integers(-2, 2), "mult": st.integers(1, 4), "pose": st.integers(0, 10**6), "ap_btype": st.integers(0, 9),
         "ap_len": st.sampled_from([1.1, 1.1, 0.8, 1.09, 1.54, 2.0]),
+        "fcs": st.one_of(st.just([0]), st.lists(st.sampled_from([0, 0, 1, -1, 2]), min_size=1, max_size=4)),
     })
 
 
